@@ -438,7 +438,7 @@ impl Filter {
                             output.push(b',');
                         }
                         output.push(b'"');
-                        output.extend(bytes);
+                        output = crate::json::json_escape(bytes, output)?;
                         output.push(b'"');
                     }
                 }
